@@ -8,6 +8,7 @@ Contracts are conformance-tested against the real numpy by selftest/conformance.
 from __future__ import annotations
 
 import builtins as _b
+builtins_all = _b.all
 
 import numpy as _np
 import z3
@@ -126,6 +127,8 @@ def _arr(x, kind=None):
     """coerce to SArr"""
     if isinstance(x, SArr):
         return x
+    if hasattr(x, "materialise"):
+        return x.materialise()
     if isinstance(x, SList):
         return x.arr
     if isinstance(x, (SNum, SBool)):
@@ -270,6 +273,12 @@ def full(shape, value, dtype=None):
         a.meta["all_nan"] = True
         return a
     return SArr.const(shape, value)
+
+
+def allclose(a, b, rtol=1e-05, atol=1e-08, equal_nan=False):
+    if not anysym(a, b):
+        return _np.allclose(a, b, rtol=rtol, atol=atol, equal_nan=equal_nan)
+    return all(isclose(a, b, rtol=rtol, atol=atol, equal_nan=equal_nan))
 
 
 NAN = z3.Real("nan?")
@@ -494,6 +503,10 @@ def reshape(a, *shape):
     if not anysym(a, shape):
         return _np.reshape(a, shape)
     a = _arr(a)
+    if a.ndim == 1 and len(shape) >= 2 and const_value(to_term(shape[0])) == -1 and builtins_all(const_value(to_term(d)) == 1 for d in shape[1:]):
+        # (n,) -> (-1, 1, ..., 1): the same values with unit axes appended
+        old = a._elem
+        return SArr((a.shape[0],) + (1,) * (len(shape) - 1), lambda i, *rest: old(i), a.kind, dtype_name=a.dtype_name)
     if a.ndim != 1 or len(shape) != 2:
         raise Unsupported("reshape other than 1-d -> 2-d")
     r, c = shape
@@ -1300,6 +1313,38 @@ class _DiagView:
         return self.materialise() * o
 
     __rmul__ = __mul__
+
+    # in-place arithmetic on the view writes through to the array it views (numpy: einsum returns a writable view)
+    def __imul__(self, o):
+        self[:] = self.materialise() * o
+        return self
+
+    def __iadd__(self, o):
+        self[:] = self.materialise() + o
+        return self
+
+    def __isub__(self, o):
+        self[:] = self.materialise() - o
+        return self
+
+    def __itruediv__(self, o):
+        self[:] = self.materialise() / o
+        return self
+
+    def __truediv__(self, o):
+        return self.materialise() / o
+
+    @property
+    def T(self):
+        # the transposed view shares the memory as well
+        return _DiagView(self.base, "ib" if self.order == "bi" else "bi")
+
+    @property
+    def ndim(self):
+        return 2
+
+    def copy(self):
+        return self.materialise()
 
 
 def einsum(spec, *ops):
